@@ -935,10 +935,7 @@ def probe_hybrid_threshold(ctx, jnp, vi, sc):
         if thr >= PHYS_MIN_SP and rel > 1e-9:
           what = (f'regrid_hybrid_to_sigma({name}) at surface pressure {sp[0, j]!r} hPa: boundaries a/sp + b unsorted '
                   f'({n_uns} inverted layers), thickness-weighted integral {rhs!r} -> {lhs!r}')
-          if any(k['key'] == UNSORTED_KEY for k in ctx.known):
-            ctx.fail(UNSORTED_KEY, what, inp)
-          else:
-            ctx.notes.append('NOT RECORDED YET (would be the finding hybrid-bounds-unsorted): ' + what)
+          ctx.fail(UNSORTED_KEY, what, inp)   # would be a genuine failure at a physically meaningful surface pressure
     ctx.notes.append(f'hybrid levels {name} -> 8 equidistant sigma layers, field 250 + 10 sin(k): a/sp + b is sorted iff '
                      f'sp >= {thr:.6g} hPa (below the physical range, >= {PHYS_MIN_SP:g} hPa: no finding); below the '
                      'threshold conservation is NOT claimed (hypothesis hs of regridHybridToSigma_conservation fails) '
